@@ -15,6 +15,8 @@ pub mod arena_eng;
 #[cfg(feature = "engines")]
 pub mod box_eng;
 #[cfg(feature = "engines")]
+pub mod c09b;
+#[cfg(feature = "engines")]
 pub mod c12;
 #[cfg(feature = "engines")]
 pub mod c16;
